@@ -61,7 +61,9 @@ const c17StormRules = `
 rule "hold" "d" salience 10
 begin
   hold(who.Id)
-  return who.Id
+  ix = 1
+  vv = who.Sl[ix]
+  return vv
 end
 rule "aux" "d" salience 1
 begin
@@ -81,6 +83,13 @@ begin
   loc = who.Id
   who.M["k"] = loc
   who.Sl[1] = loc
+  ix = 1
+  vv = who.Sl[ix]
+  same(vv, loc)
+  same(who.M["k"] + who.Sl[ix] * 2, loc * 3)
+  if who.Kind == 13 {
+    zz = who.MU[1]
+  }
   if who.Kind == 1 {
     zz = 1 / 0
   }
@@ -119,7 +128,7 @@ end
 func init() {
 	register(&Prop{
 		ID:   "C17",
-		Rule: "request histories on pools of size (1,2),(1,3),(2,3),(2,4),(3,6): start request (healthy / rule error / panicking injected function / type fault outside the self-recovering constructs / missing name / store into a nil map / wrong key kind / out-of-range element store and read / a healthy request whose data map also holds a nil value and an empty key (kind 12) / a request with a nil data map (kind 11, fails on the missing names without parking) / a failing child of the conc block in which every request parks (kind 10) / a healthy request that injects its own function, map and slice under names and Go types of values the pool was constructed with; every request also binds a local and writes its own map and slice) through any of the 24 pool execute methods, release the k-th outstanding request; up to max+4 outstanding, every request parks inside its rule on a Hold gate keyed by its id; oracle after every step: the number of requests parked inside rules equals min(max, outstanding) within the bound (waiters proceed, nothing lost) and never exceeds max, every finished request returned its own id (two in-flight requests on one instance would overwrite each other's injected object), a request never fails because the pool is busy, and after the history max requests park simultaneously again. 8% of the cases (2% in the thorough tier) are hand-over storms instead: max-1 requests stay inside their rule, the last instance is passed along a chain of 100-800 (thorough 1500) requests, each issued a generated number of spin iterations after its predecessor is let go (at most four storms at a time across the shard processes); every next request must enter its rule within the hang bound after the previous one returned and must return its own id. 3% of the cases are hammers: 4-32 clients issue 100-600 (thorough 1500) short ungated requests each, at most max may be inside a rule at any time, every request returns its own id, and afterwards max requests must be inside their rule together, three times in a row; pool sizes include (40,41), (33,34), (2,65), (31,33). Non-trivial: at some point more than max requests are outstanding and a failing or panicking request finished before the final probe, or a storm of >= 300 hand-overs; distinct by case hash",
+		Rule: "request histories on pools of size (1,2),(1,3),(2,3),(2,4),(3,6): start request (healthy / rule error / panicking injected function / type fault outside the self-recovering constructs / missing name / store into a nil map / wrong key kind / out-of-range element store and read / an integer literal key on a uint8-keyed map (kind 13) / a healthy request whose data map also holds a nil value and an empty key (kind 12) / a request with a nil data map (kind 11, fails on the missing names without parking) / a failing child of the conc block in which every request parks (kind 10) / a healthy request that injects its own function, map and slice under names and Go types of values the pool was constructed with; every request also binds a local, writes its own map and slice, reads the slice through a variable index and passes an expression over its own map and slice elements to a comparing function) through any of the 24 pool execute methods, release the k-th outstanding request; up to max+4 outstanding, every request parks inside its rule on a Hold gate keyed by its id; oracle after every step: the number of requests parked inside rules equals min(max, outstanding) within the bound (waiters proceed, nothing lost) and never exceeds max, every finished request returned its own id (two in-flight requests on one instance would overwrite each other's injected object), a request never fails because the pool is busy, and after the history max requests park simultaneously again. 8% of the cases (2% in the thorough tier) are hand-over storms instead: max-1 requests stay inside their rule, the last instance is passed along a chain of 100-800 (thorough 1500) requests, each issued a generated number of spin iterations after its predecessor is let go (at most four storms at a time across the shard processes); every next request must enter its rule within the hang bound after the previous one returned and must return its own id. 3% of the cases are hammers: 4-32 clients issue 100-600 (thorough 1500) short ungated requests each, at most max may be inside a rule at any time, every request returns its own id, and afterwards max requests must be inside their rule together, three times in a row; pool sizes include (40,41), (33,34), (2,65), (31,33). Non-trivial: at some point more than max requests are outstanding and a failing or panicking request finished before the final probe, or a storm of >= 300 hand-overs; distinct by case hash",
 		New:  func() interface{} { return &C17Case{} },
 		Gen: func(t *rapid.T) interface{} {
 			c := &C17Case{}
@@ -171,7 +180,7 @@ func init() {
 				}
 				f := int64(0)
 				if pct(t, fmt.Sprintf("faulty%d", i), 40) {
-					f = int64(uni(t, fmt.Sprintf("fault%d", i), 1, 12))
+					f = int64(uni(t, fmt.Sprintf("fault%d", i), 1, 13))
 				}
 				c.Ops = append(c.Ops, C17Op{Kind: "start", Fault: f, Method: uni(t, fmt.Sprintf("m%d", i), 0, 23)})
 				out++
@@ -238,6 +247,10 @@ func init() {
 				}
 				if r.res.Panic != "" {
 					x.Violation("request-panic", "step %d: request %d (%s, fault kind %d) panicked: %s", step, r.id, r.call.Method, r.kind, truncate(r.res.Panic, 200))
+					return false
+				}
+				if atomic.LoadInt64(&h.mismatch) > 0 {
+					x.Violation("cross-talk", "step %d: a rule computed from its request's own map and slice a value that is not its request's (an argument or element of another request was used); events %v", step, h.log.Snapshot())
 					return false
 				}
 				if r.kind == 0 || r.kind == 9 || r.kind == 12 {
@@ -480,7 +493,7 @@ func checkC17Storm(c *C17Case, x *Ctx) {
 	x.Class("storm-method:" + call.Method)
 	x.Class(fmt.Sprintf("storm-pool-max:%d", c.PoolMax))
 	exec := func(id int) {
-		data := map[string]interface{}{"who": &Payload{Id: int64(id)}}
+		data := map[string]interface{}{"who": &Payload{Id: int64(id), Sl: []int64{0, int64(id)}}}
 		slots[id].done <- gx.OnPool(p, call, data, &engine.Stag{})
 	}
 	// ids 0..max-2 are the long runners, id max-1 the first holder of the travelling instance
@@ -584,7 +597,7 @@ func checkC17Hammer(c *C17Case, x *Ctx) {
 			call := fullCall(name, []string{"hold", "aux"}, cl)
 			for k := 0; k < hm.Reqs; k++ {
 				id := int64(cl*100000 + k + 1)
-				res := gx.OnPool(p, call, map[string]interface{}{"who": &Payload{Id: id}}, &engine.Stag{})
+				res := gx.OnPool(p, call, map[string]interface{}{"who": &Payload{Id: id, Sl: []int64{0, id}}}, &engine.Stag{})
 				if res.Panic != "" || res.Err != nil || fmt.Sprint(res.Map["hold"]) != fmt.Sprint(id) {
 					select {
 					case errs <- fmt.Sprintf("request %d (%s) returned err=%v panic=%q result=%v", id, call.Method, res.Err, truncate(res.Panic, 200), sortedMap(res.Map)):
@@ -624,7 +637,7 @@ func checkC17Hammer(c *C17Case, x *Ctx) {
 		pdone := make(chan gx.Result, c.PoolMax)
 		for i := int64(0); i < c.PoolMax; i++ {
 			go func(i int64) {
-				pdone <- gx.OnPool(p, fullCall("Execute", []string{"hold", "aux"}, 0), map[string]interface{}{"who": &Payload{Id: probeBase + i}}, &engine.Stag{})
+				pdone <- gx.OnPool(p, fullCall("Execute", []string{"hold", "aux"}, 0), map[string]interface{}{"who": &Payload{Id: probeBase + i, Sl: []int64{0, probeBase + i}}}, &engine.Stag{})
 			}(i)
 		}
 		ok := true
